@@ -155,10 +155,16 @@ impl FromStr for HandRangeToken {
             && s[3..4] == s[4..5]
         {
             if let (Ok(top), Ok(bottom)) = (Rank::from_str(&s[0..1]), Rank::from_str(&s[3..4])) {
-                return Ok(HandRangeToken::new(
-                    HandRangeTokenKind::DoubleClosedRankPairRange(RankPair::Pocket(top), bottom),
-                    parse_probability(&s[5..]),
-                ));
+                // a span runs downwards: "22-AA" is not a token
+                if top <= bottom {
+                    return Ok(HandRangeToken::new(
+                        HandRangeTokenKind::DoubleClosedRankPairRange(
+                            RankPair::Pocket(top),
+                            bottom,
+                        ),
+                        parse_probability(&s[5..]),
+                    ));
+                }
             }
         }
 
@@ -207,6 +213,12 @@ impl FromStr for HandRangeToken {
             if let (Ok(high), Ok(kicker_bottom)) =
                 (Rank::from_str(&s[0..1]), Rank::from_str(&s[1..2]))
             {
+                // the kickers run from just below the high card down to the named
+                // one: "KAs+" and "2As+" are not tokens
+                if high > kicker_bottom {
+                    return Err(());
+                }
+
                 if &s[2..3] == "s" {
                     return Ok(HandRangeToken::new(
                         HandRangeTokenKind::BottomClosedRankPairRange(RankPair::Suited(
